@@ -28,12 +28,17 @@ def functions_of(tree: ast.Module) -> Dict[str, Tuple[ast.AST, Optional[ast.Clas
         if isinstance(n, (ast.FunctionDef, ast.AsyncFunctionDef)):
             out[n.name] = (n, None)
         elif isinstance(n, ast.ClassDef):
-            for m in n.body:
-                if isinstance(m, (ast.FunctionDef, ast.AsyncFunctionDef)):
-                    q = f"{n.name}.{m.name}"
-                    if any(isinstance(d, ast.Attribute) and d.attr == "setter" for d in m.decorator_list):
-                        q += ".setter"
-                    out[q] = (m, n)
+            todo = [(n, n.name)]
+            while todo:
+                k, prefix = todo.pop(0)
+                for m in k.body:
+                    if isinstance(m, (ast.FunctionDef, ast.AsyncFunctionDef)):
+                        q = f"{prefix}.{m.name}"
+                        if any(isinstance(d, ast.Attribute) and d.attr == "setter" for d in m.decorator_list):
+                            q += ".setter"
+                        out[q] = (m, k)
+                    elif isinstance(m, ast.ClassDef):
+                        todo.append((m, f"{prefix}.{m.name}"))  # nested classes (methods keyed Outer.Inner.method)
     return out
 
 
@@ -225,6 +230,61 @@ def _eligible(fn: ast.AST) -> Optional[Tuple[List[ast.stmt], ast.expr]]:
     return pre, ret
 
 
+def _tail_returns(stmts: List[ast.stmt]) -> Optional[List[ast.Return]]:
+    """All `return` statements of a body, provided every one of them is in tail position (nothing of the function runs after it):
+    last statement of the body, of both arms of a trailing `if`, of a trailing `with` body, of a trailing try body / handler."""
+    if not stmts:
+        return []
+    for st in stmts[:-1]:
+        if any(isinstance(n, ast.Return) for n in ast.walk(st)):
+            # an early `if c: return x` is still a tail return when what follows is the other arm
+            if isinstance(st, ast.If) and not st.orelse and st is stmts[0] and len(stmts) > 1:
+                a = _tail_returns(st.body)
+                b = _tail_returns(stmts[1:])
+                if a is not None and b is not None and st.body and isinstance(st.body[-1], ast.Return):
+                    return a + b
+            return None
+    last = stmts[-1]
+    if isinstance(last, ast.Return):
+        return [last]
+    if isinstance(last, ast.If):
+        a, b = _tail_returns(last.body), _tail_returns(last.orelse)
+        return None if a is None or b is None else a + b
+    if isinstance(last, (ast.With, ast.AsyncWith)):
+        return _tail_returns(last.body)
+    if isinstance(last, ast.Try):
+        parts = [_tail_returns(last.body)] + [_tail_returns(h.body) for h in last.handlers] + [_tail_returns(last.orelse)]
+        if any(p is None for p in parts) or any(isinstance(n, ast.Return) for x in last.finalbody for n in ast.walk(x)):
+            return None
+        return [r for p in parts for r in p]
+    if any(isinstance(n, ast.Return) for n in ast.walk(last)):
+        return None
+    return []
+
+
+def _stmt_eligible(fn: ast.AST) -> Optional[List[ast.stmt]]:
+    """Body of a helper that can be spliced in statement position (`x = helper(..)`, `return helper(..)`, `helper(..)`)."""
+    a = fn.args  # type: ignore[attr-defined]
+    if a.vararg or a.kwarg or a.posonlyargs:
+        return None
+    for d in fn.decorator_list:  # type: ignore[attr-defined]
+        if not (isinstance(d, ast.Name) and d.id in ("staticmethod", "classmethod")):
+            return None
+    body = [s for i, s in enumerate(fn.body) if not (i == 0 and _doc(s))]  # type: ignore[attr-defined]
+    rets = _tail_returns(body)
+    if not body or rets is None or not rets:
+        return None
+    params = {x.arg for x in a.args + a.kwonlyargs}
+    for n in ast.walk(fn):
+        if n is not fn and isinstance(n, (ast.FunctionDef, ast.AsyncFunctionDef, ast.Lambda, ast.Yield, ast.YieldFrom, ast.ClassDef, ast.Global, ast.Nonlocal)):
+            return None
+        if isinstance(n, ast.Name) and isinstance(n.ctx, (ast.Store, ast.Del)) and n.id in params:
+            return None
+        if isinstance(n, ast.Name) and n.id == fn.name:  # type: ignore[attr-defined]
+            return None
+    return body
+
+
 def _ret_tree(stmts: List[ast.stmt]) -> Optional[ast.expr]:
     if len(stmts) == 1 and isinstance(stmts[0], ast.Return) and stmts[0].value is not None:
         return stmts[0].value
@@ -306,6 +366,10 @@ def inline_new_helpers(tree: ast.Module, ref_functions: Set[str]) -> int:
             el = _eligible(fn)
             if el is not None:
                 helpers[q] = (fn, cls, el[0], el[1])
+            else:
+                sb = _stmt_eligible(fn)
+                if sb is not None:
+                    helpers[q] = (fn, cls, sb, None)  # spliced in statement position only
         if not helpers:
             break
         changed = 0
@@ -316,6 +380,26 @@ def inline_new_helpers(tree: ast.Module, ref_functions: Set[str]) -> int:
         total += changed
         if not changed:
             break
+    if total:
+        # a new helper that is no longer referenced anywhere (every call was inlined) is not part of the analysed view
+        funcs = functions_of(tree)
+        for q, (fn, cls) in funcs.items():
+            if q in ref_functions or q.endswith(".setter") or fn.name.startswith("__"):  # type: ignore[attr-defined]
+                continue
+            refs = 0
+            for n in ast.walk(tree):
+                if n is fn:
+                    continue
+                if isinstance(n, ast.Name) and n.id == fn.name:  # type: ignore[attr-defined]
+                    refs += 1
+                elif isinstance(n, ast.Attribute) and n.attr == fn.name:  # type: ignore[attr-defined]
+                    refs += 1
+                elif isinstance(n, ast.Constant) and n.value == fn.name:  # type: ignore[attr-defined]
+                    refs += 1  # getattr(self, "name") style
+            if refs == 0:
+                owner = cls.body if cls is not None else tree.body
+                if fn in owner and len(owner) > 1:
+                    owner.remove(fn)
     return total
 
 
@@ -383,6 +467,35 @@ def _inline_into(host: ast.AST, hcls: Optional[ast.ClassDef], helpers) -> int:
                 continue
             call, (q, bound) = target
             fn, _cls, pre, ret = helpers[q]
+            if ret is None:
+                # statement-position helper: only `x = h(..)`, `return h(..)`, `h(..)` are rewritten
+                whole = (isinstance(st, ast.Assign) and len(st.targets) == 1 and isinstance(st.targets[0], ast.Name) and st.value is call) or \
+                    (isinstance(st, (ast.Return, ast.Expr)) and st.value is call)
+                first_s = fn.args.args[0].arg if (fn.args.args and bound) else None
+                static_s = any(isinstance(d, ast.Name) and d.id == "staticmethod" for d in fn.decorator_list)
+                m_s = _bind(fn, call, skip_first=bound and not static_s) if whole else None
+                if m_s is None:
+                    i += 1
+                    continue
+                if first_s and isinstance(call.func, ast.Attribute) and not static_s:
+                    m_s[first_s] = call.func.value
+                host_names = {x.id for x in ast.walk(host) if isinstance(x, ast.Name)} | {a.arg for a in host.args.args + host.args.kwonlyargs}  # type: ignore[attr-defined]
+                rename = {v: v + "_inl" for v in _stored_names(list(pre)) if v in host_names}
+                sub_s = _Subst(m_s, rename)
+                new_body = [ast.copy_location(sub_s.visit(copy.deepcopy(s2)), st) for s2 in pre]
+
+                class _R(ast.NodeTransformer):
+                    def visit_Return(self, r):  # noqa: N802
+                        v = r.value if r.value is not None else ast.Constant(value=None)
+                        if isinstance(st, ast.Assign):
+                            return ast.copy_location(ast.Assign(targets=[copy.deepcopy(st.targets[0])], value=v, type_comment=None), r)
+                        if isinstance(st, ast.Return):
+                            return ast.copy_location(ast.Return(value=v), r)
+                        return ast.copy_location(ast.Expr(value=v), r)
+                new_body = [ast.fix_missing_locations(_R().visit(s2)) for s2 in new_body]
+                body[i:i + 1] = new_body
+                n += 1
+                continue
             first = fn.args.args[0].arg if (fn.args.args and bound) else None
             static = any(isinstance(d, ast.Name) and d.id == "staticmethod" for d in fn.decorator_list)
             m = _bind(fn, call, skip_first=bound and not static)
